@@ -25,7 +25,9 @@ Definition ptype_code (t : ptype) : Z :=
   match t with PUninit => 0 | PSyn => 1 | PSynAck => 2 | PAck => 3 | PError => 4 | PPayload => 5 end.
 
 (* who is told when a hop drops the packet *)
-Inductive dropcb := DTcp (sock : Z) | DUser (id : Z).
+(* a TCP segment's drop callback names the socket that sent it and that socket's
+   forwarder at the time *)
+Inductive dropcb := DTcp (sock fwd : Z) | DUser (id : Z).
 
 Record packet := {
   p_type : ptype;
